@@ -521,6 +521,20 @@ func (c *Collection) Update(key string, exp Exp, callback sgbucket.UpdateFunc) (
 		}
 
 		var opt sgbucket.WriteOptions = 0 // Hardcoded; callback cannot customize this :(
+		if newRaw == nil && !delete && raw != nil {
+			// Only the expiry changes and the body is written back as it was: then it also keeps its
+			// JSON-or-raw flag (a raw body flagged as JSON is skipped by the views and mislabelled on feeds).
+			// The CAS check of the write covers a change of the document after this read.
+			var isJSON bool
+			row := c.db().QueryRow(`SELECT isJSON FROM documents WHERE collection=? AND key=?`, c.id, key)
+			if scanErr := scan(row, &isJSON); scanErr == nil {
+				if !isJSON {
+					opt = sgbucket.Raw
+				}
+			} else if scanErr != sql.ErrNoRows { // (a document that has vanished is the CAS check's business)
+				return 0, scanErr
+			}
+		}
 		casOut, err = c.WriteCas(key, exp, cas, raw, opt)
 		if err == nil {
 			break
